@@ -539,7 +539,11 @@ class _VersionIndependentUnmarshaller:
             return self.r_ref_insert(ret, i)
 
         co_consts = self.r_object(bytes_for_s=bytes_for_s)
-        co_names = self.r_object(bytes_for_s=bytes_for_s)
+
+        # PyPy 3.2 marshals the names, filename and name of a code object as
+        # byte strings ('s'); to the interpreter they are text, as co_varnames is.
+        names_bytes_for_s = bytes_for_s and self.magic_int != 3180 + 7
+        co_names = self.r_object(bytes_for_s=names_bytes_for_s)
 
         co_varnames = tuple()
         co_freevars = tuple()
@@ -577,11 +581,11 @@ class _VersionIndependentUnmarshaller:
                 co_varnames = tuple()
 
             if self.version_tuple >= (2, 0):
-                co_freevars = self.r_object(bytes_for_s=bytes_for_s)
-                co_cellvars = self.r_object(bytes_for_s=bytes_for_s)
+                co_freevars = self.r_object(bytes_for_s=names_bytes_for_s)
+                co_cellvars = self.r_object(bytes_for_s=names_bytes_for_s)
 
-            co_filename = self.r_object(bytes_for_s=bytes_for_s)
-            co_name = self.r_object(bytes_for_s=bytes_for_s)
+            co_filename = self.r_object(bytes_for_s=names_bytes_for_s)
+            co_name = self.r_object(bytes_for_s=names_bytes_for_s)
 
         co_exceptiontable = None
         if self.version_tuple >= (1, 5):
